@@ -1,6 +1,6 @@
 (* C12 -- Estimates are a deterministic function of the arguments. *)
-From Coq Require Import List String Bool.
-From Elex Require Import Model.ClientSM Proofs.ClientSMProofs Gen.Effects.
+From Coq Require Import List String Bool QArith.
+From Elex Require Import Model.ClientSM Model.Estimandizer Proofs.ClientSMProofs Proofs.EstimandizerProofs Gen.Effects.
 Import ListNotations.
 Open Scope string_scope.
 
@@ -42,3 +42,25 @@ Theorem C12_unseeded_site_refuted :
   forallb (fun s : string * nat * string * bool => snd s) [("math_utils.py", 86%nat, "scipy.stats.bootstrap", false)] = false.
 Proof. reflexivity. Qed.
 Print Assumptions C12_unseeded_site_refuted.
+
+(* known finding F23 / F23b: the state that is NOT on the client.  add_estimand_baselines works in place on the baseline frame it is
+   given (and a call with "data" in save_output writes the processed frame to the local cache).  For a run that requests the margin the
+   first pass leaves the two-party vote in baseline_weights, a second pass over the same frame (or over the cached file) leaves the
+   turnout there: the two runs agree exactly when no unit has third-party votes.  check_add_baselines compares both passes with the
+   implementation on every run. *)
+Theorem C12_baseline_pass_twice : forall f : bframe, bf_has_margin f = false ->
+  bf_weights (add_baselines_margin f) = Some (bf_dem f + bf_gop f)%Q
+  /\ bf_weights (add_baselines_margin (add_baselines_margin f)) = Some (bf_turnout f)
+  /\ (weights_eqb (bf_weights (add_baselines_margin (add_baselines_margin f))) (bf_weights (add_baselines_margin f)) = true
+      <-> (bf_turnout f == bf_dem f + bf_gop f)%Q).
+Proof.
+  intros f H. split; [exact (first_pass_two_party f H)|]. split; [exact (second_pass_turnout f) | exact (add_baselines_idempotent_iff f H)].
+Qed.
+Print Assumptions C12_baseline_pass_twice.
+
+Theorem C12_baseline_frame_reuse_refuted : exists f : bframe, bf_has_margin f = false /\
+  weights_eqb (bf_weights (add_baselines_margin (add_baselines_margin f))) (bf_weights (add_baselines_margin f)) = false.
+Proof.
+  exists {| bf_dem := 1964; bf_gop := 3128; bf_turnout := 5130; bf_weights := None; bf_has_margin := false |}. split; reflexivity.
+Qed.
+Print Assumptions C12_baseline_frame_reuse_refuted.
